@@ -950,8 +950,14 @@ def j9_class_ids_are_positions(ctx) -> None:
             later = blk[2][blk[3] + 1:]
             app = any(isinstance(x, ast.Call) and norm(x.func) == f"{arr}.append" and x.args and norm(x.args[0]).startswith(f"{c}.") for s2 in later[:1] for x in ast.walk(s2))
             if is_len and fresh and app:
-                ok_n += 1
-                ctx.ok("J9", f"`{c}` gets the id len({arr}) when it is appended, once")
+                # `for c in (c1, c2):` covers both components of the pair with one site
+                cover = 1
+                for lp in C.enclosing_loops(f, st):
+                    if isinstance(lp, ast.For) and norm(lp.target) == c and isinstance(lp.iter, (ast.Tuple, ast.List)):
+                        cover = len(lp.iter.elts)
+                ok_n += cover
+                for k_ in range(cover):
+                    ctx.ok("J9", f"`{c}` gets the id len({arr}) when it is appended, once" + (f" (component {k_ + 1} of the pair)" if cover > 1 else ""))
             else:
                 why = "not len(array)" if not is_len else ("given again to a class that already has one" if not fresh else "not followed by the append of that class")
                 ctx.violation("J9", st, f"the id of `{c}` is {why}: ids must be positions in the array of dumped classes")
@@ -966,3 +972,37 @@ def PT_assign(st):
     if isinstance(st, ast.AnnAssign):
         return st.target, st.value
     return None, None
+
+
+def j10_class_array_is_a_list(ctx) -> None:
+    """The maps of a dumped bijection refer to classes by position in "classes"; that value is
+    the list made by _classes_to_array and is read back by iterating over it.  As a JSON
+    object its order is whatever the dump / load (sort_keys, other tools) makes of the keys."""
+    P = ctx.P
+    w = P.need_method("Bijection", "to_jsonable", own=True)
+    ctx.analysed(w)
+    W = _written_keys_of(P, w, 0)
+    v = W.get("classes")
+    if v is None:
+        ctx.violation("J10", w.node, "Bijection.to_jsonable no longer writes the array of classes", construct="Bijection.to_jsonable classes")
+        return
+    val = D.expanded(w.node, v)
+    listy = isinstance(val, (ast.List, ast.ListComp)) or (isinstance(val, ast.Call) and norm(val.func) in ("list", "sorted")) \
+        or (isinstance(val, ast.Subscript) and "_classes_to_array" in norm(val.value)) or isinstance(v, ast.Name)
+    if isinstance(val, (ast.Dict, ast.DictComp)) or (isinstance(val, ast.Call) and norm(val.func) == "dict"):
+        ctx.violation("J10", v, f"\"classes\" is written as a JSON object (`{norm(val)[:60]}`): the maps address classes by position, and an object has no position a reader can "
+                      "rely on (key order changes with sort_keys and from ten classes on '10' sorts before '2')")
+    elif listy:
+        ctx.ok("J10", "the classes are written as a list (positions are what the maps refer to)")
+    else:
+        raise AnalysisError("J10: the value written under 'classes' is not understood")
+    r = P.need_method("Bijection", "from_dict", own=True)
+    ctx.analysed(r)
+    dpar = _dict_param(r)
+    uses = [n for n in walk_local(r.node) if isinstance(n, ast.Subscript) and norm(n) == f"{dpar}['classes']"]
+    for u in uses:
+        par = getattr(u, "_parent", None)
+        if isinstance(par, ast.Attribute) and par.attr in ("values", "items", "keys"):
+            ctx.violation("J10", par, f"`{norm(par)}` reads the classes in the order of a JSON object's keys, not by position")
+        else:
+            ctx.ok("J10", "the classes are read back by position")
